@@ -108,6 +108,7 @@ type Gen struct {
 	localAddr  map[string]*Val       // locals that live in memory: pointer to the cell
 	localObjs  map[string]types.Object
 	localAmbig map[string]bool
+	localName  map[types.Object]string
 }
 
 type loopInfo struct {
